@@ -183,6 +183,13 @@ func cursorFactsOf(g *GC, nstores int) cursorFacts {
 				if isZeroT(x) && isIndexLoad(y, nstores) {
 					f.newEq0, f.newGe0 = true, true
 				}
+				// the new index equals the size (it stepped over the last element) or equals -1: outside the range
+				if (isSize(x) && isIndexLoad(y, nstores)) || (isSize(y) && isIndexLoad(x, nstores)) {
+					f.newOut = true
+				}
+				if (x.String() == "#:-1" && isIndexLoad(y, nstores)) || (y.String() == "#:-1" && isIndexLoad(x, nstores)) {
+					f.newOut = true
+				}
 				for _, pr := range [][2]*Term{{x, y}, {y, x}} {
 					if isIndexLoad(pr[1], nstores) && pr[0].Op == "-" && isSize(pr[0].Args[0]) && pr[0].Args[1].String() == "#:1" {
 						f.newEqLast = true
@@ -488,6 +495,28 @@ func ruleR14(c *Ctx) *RuleResult {
 					case res.Op == "res" && wrapT != nil && strings.HasSuffix(res.Args[0].Leaf, ")."+dir) && hasField(res.Args[0], wrapF):
 						// treeset: result of the wrapped tree iterator
 					case res.String() == "#:true":
+						// after a single step index+1 from an index known below n, "new index != n" is "new index < n"; the lower
+						// half holds by the cursor invariant -1 <= index (as above). Mirror for Prev.
+						if !inRange && moved == 1 {
+							neSize, neMinus1 := false, false
+							for _, a := range g.Guards {
+								if a.Op == "!=" && len(a.Args) == 2 {
+									x, y := a.Args[0], a.Args[1]
+									if (isSize(x) && isIndexLoad(y, n)) || (isSize(y) && isIndexLoad(x, n)) {
+										neSize = true
+									}
+									if (x.String() == "#:-1" && isIndexLoad(y, n)) || (y.String() == "#:-1" && isIndexLoad(x, n)) {
+										neMinus1 = true
+									}
+								}
+							}
+							if dir == "Next" && stepVal.Op == "+" && stepVal.Args[0].String() == "#:1" && isIndexLoad(stepVal.Args[1], 0) && f.oldLtSize && (neSize || f.newLtSize) {
+								inRange = true
+							}
+							if dir == "Prev" && stepVal.Op == "-" && isIndexLoad(stepVal.Args[0], 0) && stepVal.Args[1].String() == "#:1" && f.oldGe0 && (neMinus1 || f.newGe0) && f.newLtSize {
+								inRange = true
+							}
+						}
 						if !inRange {
 							bad = append(bad, dir+" returns true on a path that does not establish 0 <= index < n: "+trunc(g.String(), 300))
 						}
